@@ -101,8 +101,10 @@ def notify (s : St) (p : Nat) (d : Decision) : St :=
   let v := notifyVerdict s d
   { s with notes := (d.vote.inst, p, d) :: s.notes, errs := if v = .ok then s.errs else s.errs + 1 }
 
-/-- latest recorded decision of a participant in an instance (`eci.decisions[p]`); decisions naming a
-non-existing instance are not recorded anywhere -/
+/-- latest recorded decision of a participant in an instance (`eci.decisions[p]`). The code records
+nothing for a decision that names a non-existing instance, the model keeps it in `notes`; this
+cannot be observed: such a notification raises `errs`, after which no instance is ever begun
+(`beginEarly` refuses, `loopHead` fails), so no instance with that number will exist. -/
 def latest (notes : List (Nat × Nat × Decision)) (inst p : Nat) : Option Decision :=
   (notes.find? (fun n => n.1 == inst && n.2.1 == p)).map (·.2.2)
 
